@@ -1793,7 +1793,17 @@ impl FunctionDef {
                 for (idx, expected_arg) in expected_args.iter().enumerate() {
                     match expected_arg {
                         LambdaArg::Required(arg_name) => {
-                            local_bindings.insert(arg_name.clone(), args[idx]);
+                            // A required parameter written after an optional or rest
+                            // parameter can be left without an argument even though the
+                            // argument count is accepted by the arity check
+                            let Some(arg) = args.get(idx) else {
+                                return Err(RuntimeError::new(format!(
+                                    "{} is missing an argument for required parameter \"{}\"",
+                                    self.get_name(),
+                                    arg_name
+                                )));
+                            };
+                            local_bindings.insert(arg_name.clone(), *arg);
                         }
                         LambdaArg::Optional(arg_name) => {
                             local_bindings.insert(
